@@ -5,7 +5,7 @@ CONSTANTS
   Delegators = {"D1"}
   Specs = {"S1"}
   Plans = {"PL1"}
-  MaxOps = 4
+  MaxOps = 3
   GenHist = FALSE
   FixRenew = TRUE
   Bias = "all"
